@@ -11,7 +11,6 @@ use std::path::Path;
 pub const WRITERS: &[&str] = &["lcov", "covdir", "cobertura", "markdown", "ade", "html"];
 
 /// named matchers of known defects (call site + failing condition)
-pub const F_MD_NAN: &str = "C13-markdown-nan-zero-lines";
 pub const F_ADE_NULL: &str = "C13-ade-null-zero-lines";
 pub const F_HTML_ROOT: &str = "C13-html-root-dir-replaces-index";
 
@@ -454,7 +453,7 @@ fn obs_markdown(case: &Case, text: &str) -> Result<Obs, String> {
         if r.covered > r.total {
             fail(&mut of, format!("{}: covered {} > total {}", at, r.covered, r.total));
         }
-        check_rate(&mut of, &at, &r.pct, r.covered, r.total, 100, tol, Some(F_MD_NAN));
+        check_rate(&mut of, &at, &r.pct, r.covered, r.total, 100, tol, None);
         tc += r.covered;
         tl += r.total;
         if let Some(f) = case.files.get(i) {
@@ -473,7 +472,7 @@ fn obs_markdown(case: &Case, text: &str) -> Result<Obs, String> {
         }
     }
     toks.push(format!("T=~{}", doc.total.0));
-    check_rate(&mut of, "markdown total", &doc.total, tc, tl, 100, tol, Some(F_MD_NAN));
+    check_rate(&mut of, "markdown total", &doc.total, tc, tl, 100, tol, None);
     Ok(Obs {
         canon: format!("ok {}", toks.join(" ")),
         ofails: of,
@@ -882,7 +881,8 @@ mod tests {
     fn markdown_wrong_figures_are_rejected() {
         let (env, case) = case();
         let t = text(&env, &case, "markdown");
-        for (a, b) in [("66.67%", "66.66%"), ("2 / 3", "3 / 3"), ("Total coverage: 66.67%", "Total coverage: 66.6%"), ("50.00%", "inf%")] {
+        for (a, b) in [("66.67%", "66.66%"), ("2 / 3", "3 / 3"), ("Total coverage: 66.67%", "Total coverage: 66.6%"), ("50.00%", "inf%"),
+                       ("50.00%", "NaN%"), ("Total coverage: 66.67%", "Total coverage: NaN%")] {
             let o = obs_markdown(&case, &doctored(&t, a, b)).unwrap();
             assert!(unnamed(&o) > 0, "{} -> {} accepted", a, b);
         }
